@@ -59,8 +59,22 @@ pub fn run_lookup(r: &mut Rng, items: &[(i64, Vec<u8>)], use_async: bool) -> Res
     let salt: Option<Vec<u8>> = if r.chance(1, 2) { Some(b"s".to_vec()) } else { None };
     let signed: Vec<MutableItem> = items.iter().map(|(seq, v)| MutableItem::new(&sk, v, *seq, salt.as_deref())).collect();
     let n = items.len().max(1);
-    let peers: Vec<Peer> = (0..n).map(|i| Peer::new(peer_id(i, r))).collect();
-    let all_nodes: Vec<dht::Node> = peers.iter().map(|p| p.node()).collect();
+    // more than 20 holders: a lookup only ever asks the 20 closest nodes it knows, so the holders come in two layers -
+    // the first one (far from the target) is what the node knows; its answers list the second one (closer)
+    let layered = n > 20;
+    let l1 = if layered { n / 2 } else { n };
+    let target0 = *MutableItem::target_from_key(&pk, salt.as_deref()).as_bytes();
+    let mut peers: Vec<Peer> = (0..n).map(|i| Peer::new(peer_id(i, r))).collect();
+    if layered {
+        for (i, p) in peers.iter_mut().enumerate() {
+            // distinct first bytes (21-bit prefixes differ); the first bit decides the layer's distance to the target
+            let far = i < l1;
+            p.id[0] = (if far { !target0[0] } else { target0[0] } & 0x80) | ((i as u8) & 0x7f);
+        }
+    }
+    let all_nodes: Vec<dht::Node> = peers.iter().take(l1).map(|p| p.node()).collect();
+    let second_layer: Vec<dht::Node> = peers.iter().skip(l1).map(|p| p.node()).collect();
+    let mut served = 0usize;
     tape_seed(r.next());
     let dht = Dht::builder().bootstrap(&[peers[0].addr.to_string()]).port(0).build().map_err(|e| e.to_string())?;
     let (tx, rx) = mpsc::channel();
@@ -91,6 +105,26 @@ pub fn run_lookup(r: &mut Rng, items: &[(i64, Vec<u8>)], use_async: bool) -> Res
                 None => continue,
             };
             match &req.request_type {
+                RequestTypeSpecific::GetValue(a) if a.target == target && layered => {
+                    // item number `served` goes out now (the node reads its socket in this order)
+                    let responder_id = Id::from(peers[inc.peer].id);
+                    let mt = if served < signed.len() {
+                        let it = &signed[served];
+                        MessageType::Response(ResponseSpecific::GetMutable(GetMutableResponseArguments {
+                            responder_id,
+                            token: vec![1, 2, 3, 4].into(),
+                            nodes: if inc.peer < l1 { Some(second_layer.clone().into()) } else { None },
+                            v: it.value().into(),
+                            k: *it.key(),
+                            seq: it.seq(),
+                            sig: *it.signature(),
+                        }))
+                    } else {
+                        MessageType::Response(ResponseSpecific::NoValues(NoValuesResponseArguments { responder_id, token: vec![1, 2, 3, 4].into(), nodes: None }))
+                    };
+                    served += 1;
+                    peers[inc.peer].send(inc.from, inc.msg.transaction_id, mt, false, None);
+                }
                 RequestTypeSpecific::GetValue(a) if a.target == target && !answered => {
                     pending.push((inc.peer, inc.from, inc.msg.transaction_id));
                 }
@@ -212,6 +246,15 @@ pub fn generate(seed: u64, scale: usize) -> Cases {
             let a = r.chance(1, 2);
             cases.push(&format!("pattern{}", pi), case(&mut r, &items, a));
         }
+    }
+    // more than 20 holders (two layers of nodes): the newest item, or the greatest value of a tie, among the last delivered
+    for a in [false, true] {
+        let mut items: Vec<(i64, Vec<u8>)> = (0..24).map(|i| (1 + (i % 3) as i64, vec![b'a' + (i % 2) as u8])).collect();
+        items[22] = (9, b"newest".to_vec());
+        cases.push("more_than_20_holders", case(&mut r, &items, a));
+        let mut items: Vec<(i64, Vec<u8>)> = (0..26).map(|_| (4i64, b"m".to_vec())).collect();
+        items[25] = (4, b"z".to_vec());
+        cases.push("more_than_20_holders", case(&mut r, &items, a));
     }
     // random longer streams
     for _ in 0..(6 * scale) {
